@@ -34,7 +34,8 @@ namespace gtry
 	class ConditionalScope : public BaseScope<ConditionalScope>
 	{
 	public:
-		struct ElseCase {};
+		/// Captures the condition of the preceding IF/ELSEIF when it is created, i.e. (in the braced initializer list of ELSEIF) before the new condition expression is evaluated, which may itself contain conditional scopes.
+		struct ElseCase { hlim::NodePort lastCondition = m_lastCondition; };
 
 		static ConditionalScope *get() { return m_currentScope; }
 
